@@ -33,6 +33,10 @@ import (
 //     PANIC:process:<first "panic:" / "fatal error:" line of its stderr> (a replayable case), otherwise the death was
 //     the late effect of an earlier case and the answer says so;
 //   - nothing within c11ProcessBudget: the worker is killed, TIMEOUT:process.
+//
+// c11.setup uses c11Slots workers side by side.  Which worker a generated case goes to and when is fixed by the
+// generator (case number i: worker i mod c11Slots, as that worker's (i div c11Slots)-th case), not by the scheduler, so
+// that every worker sees the same sequence of cases in every run.  c11.reload, replays and corpus cases use worker 0.
 const c11WorkerEnv = "C11_WORKER_TMP"
 const c11AnswerMark = "\x01c11\x01"
 const c11ProcessBudget = 40 * time.Second
@@ -88,7 +92,30 @@ type c11Worker struct {
 	errDone chan struct{}
 }
 
-var c11W *c11Worker
+const c11Slots = 4
+
+// one worker process and its queue discipline
+type c11Slot struct {
+	mu   sync.Mutex
+	cond *sync.Cond
+	next int // the turn (position in this worker's sequence of generated cases) that may run now
+	w    *c11Worker
+	grew map[int]int // by how many goroutines the cases grew the worker: histogram
+}
+
+var c11SlotTab = func() (t [c11Slots]*c11Slot) {
+	for i := range t {
+		t[i] = &c11Slot{grew: map[int]int{}}
+		t[i].cond = sync.NewCond(&t[i].mu)
+	}
+	return
+}()
+
+// case line -> number of the case in the generator's order (filled by the generator, consumed by the evaluation)
+var (
+	c11OrderMu sync.Mutex
+	c11Order   = map[string]int{}
+)
 
 func c11Spawn() (*c11Worker, error) {
 	exe, err := os.Executable()
@@ -151,11 +178,23 @@ func (w *c11Worker) kill() {
 	w.cmd.Wait()
 }
 
-func c11KillWorker() {
-	if c11W != nil {
-		c11W.kill()
-		c11W = nil
+func (sl *c11Slot) killWorker() {
+	if sl.w != nil {
+		sl.w.kill()
+		sl.w = nil
 	}
+}
+
+func c11KillWorkers() {
+	for _, sl := range c11SlotTab {
+		sl.mu.Lock()
+		sl.killWorker()
+		sl.next = 0
+		sl.mu.Unlock()
+	}
+	c11OrderMu.Lock()
+	c11Order = map[string]int{}
+	c11OrderMu.Unlock()
 }
 
 const (
@@ -165,62 +204,66 @@ const (
 	c11NoWorker
 )
 
-// c11Ask sends one case line to the worker (starting one if there is none).
-func c11Ask(line string) (ans string, status int, crash string) {
-	if c11W == nil {
+// ask sends one case line to the slot's worker (starting one if there is none).  The slot is locked by the caller.
+func (sl *c11Slot) ask(line string) (ans string, status int, crash string) {
+	if sl.w == nil {
 		w, err := c11Spawn()
 		if err != nil {
 			return "", c11NoWorker, err.Error()
 		}
-		c11W = w
+		sl.w = w
 	}
-	w := c11W
-	if _, err := io.WriteString(w.in, line+"\n"); err != nil {
-		// the worker is gone already (killed by a goroutine an earlier case left behind)
+	w := sl.w
+	died := func() (string, int, string) {
 		select {
 		case <-w.errDone:
 		case <-time.After(2 * time.Second):
 		}
 		msg := w.tail.crash()
-		c11KillWorker()
+		sl.killWorker()
 		return "", c11Died, msg
+	}
+	if _, err := io.WriteString(w.in, line+"\n"); err != nil {
+		return died() // gone already: killed by a goroutine an earlier case left behind
 	}
 	select {
 	case l, ok := <-w.lines:
 		if !ok {
-			select {
-			case <-w.errDone:
-			case <-time.After(2 * time.Second):
-			}
-			msg := w.tail.crash()
-			c11KillWorker()
-			return "", c11Died, msg
+			return died()
 		}
 		return l, c11Answered, ""
 	case <-time.After(c11ProcessBudget):
-		c11KillWorker()
+		sl.killWorker()
 		return "", c11Silent, ""
 	}
 }
 
-// per directive: how many cases of a stream ended in TIMEOUT.  Every hang costs a watchdog period; once a directive
-// has shown c11MaxTimeouts of them in a stream the rest of its cases in that stream are skipped (answer "total", tagged
+// per stream and directive: how many cases ended in TIMEOUT.  Every hang costs a watchdog period; once a directive
+// has shown maxTimeouts of them in a stream the rest of its cases in that stream are skipped (answer "total", tagged
 // trivial-skipped-…: they were not evaluated), so that a directive that hangs on a whole family of inputs cannot
 // stall the run.
-var c11Timeouts = map[string]int{}
+var (
+	c11TimeoutsMu sync.Mutex
+	c11Timeouts   = map[string]int{}
+)
+
+func c11TimeoutCount(key string, add int) int {
+	c11TimeoutsMu.Lock()
+	defer c11TimeoutsMu.Unlock()
+	c11Timeouts[key] += add
+	return c11Timeouts[key]
+}
 
 // A goroutine that a setup started may panic a moment AFTER the worker has answered the case (the scheduler decides),
-// and the death would be seen while the next case runs.  The worker reports by how many goroutines the process grew
-// during the case (last tag, grew=N); nearly all cases grow it by the same small number (the certificate maintenance
-// of the instance).  After a case that grew it by more, the parent sends a ping — the worker answers it 3 ms later —
+// and the death would be seen while the next case runs.  The worker reports by how many goroutines per load the process
+// grew during the case (last tag, grew=N); nearly all cases grow it by the same small number (the certificate
+// maintenance of the instance).  After a case that grew it by more, the parent sends a ping — the worker answers it 3 ms later —
 // and takes a worker that dies before the pong as having died of the case.
 const c11Ping = "#ping"
 
-var c11GrewHist = map[int]int{}
-
-func c11UsualGrowth() int {
+func (sl *c11Slot) usualGrowth() int {
 	best, n := 0, -1
-	for g, c := range c11GrewHist {
+	for g, c := range sl.grew {
 		if c > n || (c == n && g < best) {
 			best, n = g, c
 		}
@@ -228,9 +271,9 @@ func c11UsualGrowth() int {
 	return best
 }
 
-// c11AskSettled: one case, plus the ping when the case left more goroutines behind than usual (or always, if `always`).
-func c11AskSettled(stream string, f []string, always bool) (out string, tags []string, status int, crash string) {
-	ans, st, crash := c11Ask(stream + "\t" + strings.Join(f, "\t"))
+// askSettled: one case, plus the ping when the case left more goroutines behind than usual (or always, if `always`).
+func (sl *c11Slot) askSettled(stream string, f []string, always bool) (out string, tags []string, status int, crash string) {
+	ans, st, crash := sl.ask(stream + "\t" + strings.Join(f, "\t"))
 	if st != c11Answered {
 		return "", nil, st, crash
 	}
@@ -243,8 +286,8 @@ func c11AskSettled(stream string, f []string, always bool) (out string, tags []s
 			tags = append(tags, t)
 		}
 	}
-	usual := c11UsualGrowth()
-	c11GrewHist[grew]++
+	usual := sl.usualGrowth()
+	sl.grew[grew]++
 	if always || grew > usual {
 		tags = append(tags, "left-goroutines-behind")
 		ping := make([]string, len(f))
@@ -252,23 +295,45 @@ func c11AskSettled(stream string, f []string, always bool) (out string, tags []s
 			ping[i] = "-"
 		}
 		ping[0] = c11Ping
-		if _, st, crash := c11Ask(stream + "\t" + strings.Join(ping, "\t")); st == c11Died {
+		if _, st, crash := sl.ask(stream + "\t" + strings.Join(ping, "\t")); st == c11Died {
 			return "", nil, c11Died, crash
 		}
 	}
 	return out, tags, c11Answered, ""
 }
 
-// c11Isolated evaluates one case of a search stream in the worker.
+// c11Isolated evaluates one case of a search stream in a worker.
 func c11Isolated(stream string, f []string, maxTimeouts int) (string, []string) {
 	key := stream + "/" + f[0]
-	if c11Timeouts[key] >= maxTimeouts {
+	line := stream + "\t" + strings.Join(f, "\t")
+	c11OrderMu.Lock()
+	idx, ordered := c11Order[line]
+	delete(c11Order, line)
+	c11OrderMu.Unlock()
+	sl := c11SlotTab[0]
+	if ordered {
+		sl = c11SlotTab[idx%c11Slots]
+	}
+	sl.mu.Lock()
+	if ordered {
+		for sl.next != idx/c11Slots {
+			sl.cond.Wait()
+		}
+		defer func() {
+			sl.next++
+			sl.cond.Broadcast()
+			sl.mu.Unlock()
+		}()
+	} else {
+		defer sl.mu.Unlock()
+	}
+	if c11TimeoutCount(key, 0) >= maxTimeouts {
 		return "total", []string{"dir=" + f[0], "trivial-skipped-after-timeout-in-" + f[0]}
 	}
-	out, tags, st, crash := c11AskSettled(stream, f, false)
+	out, tags, st, crash := sl.askSettled(stream, f, false)
 	if st == c11Died {
 		// once more, alone in a fresh process
-		out2, tags2, st2, crash2 := c11AskSettled(stream, f, true)
+		out2, tags2, st2, crash2 := sl.askSettled(stream, f, true)
 		switch st2 {
 		case c11Died:
 			return "PANIC:process:" + crash2, []string{"dir=" + f[0], "process-died"}
@@ -280,14 +345,25 @@ func c11Isolated(stream string, f []string, maxTimeouts int) (string, []string) 
 	}
 	switch st {
 	case c11Silent:
-		c11Timeouts[key]++
+		c11TimeoutCount(key, 1)
 		return "TIMEOUT:process", []string{"dir=" + f[0], "process-silent"}
 	case c11NoWorker:
 		panic("c11: cannot start the worker process: " + crash)
 	}
 	if strings.HasPrefix(out, "TIMEOUT") {
-		c11Timeouts[key]++
-		c11KillWorker()
+		c11TimeoutCount(key, 1)
+		sl.killWorker()
 	}
 	return out, tags
+}
+
+// c11Ordered registers a generated case (its full case line) under its number; false if the line was generated before.
+func c11Ordered(line string, n int) bool {
+	c11OrderMu.Lock()
+	defer c11OrderMu.Unlock()
+	if _, dup := c11Order[line]; dup {
+		return false
+	}
+	c11Order[line] = n
+	return true
 }
